@@ -116,12 +116,30 @@ class RefReader:
     def derive(self, key: Key, ctx):
         return hashlib.blake2b(ctx, salt=key.shared_salt, digest_size=key.private['shared_kdf']['length'], key=key.shared_key).digest()
 
+    @staticmethod
+    def user_key(kdf, salt, password):
+        """UserKey = SlowKdf(Password, UserKdfParams): scrypt, or BLAKE2b keyed with the password and salted"""
+        if kdf['name'] == 'scrypt':
+            from cryptography.hazmat.primitives.kdf.scrypt import Scrypt
+            return Scrypt(n=kdf['n'], r=kdf['r'], p=kdf['p'], length=kdf['length'], salt=salt).derive(password)
+        if kdf['name'] == 'blake2b':
+            return hashlib.blake2b(b'', salt=salt, digest_size=kdf['length'], key=password).digest()
+        raise ValueError('unknown user KDF ' + kdf['name'])
+
+    def opens_with(self, key_bytes, guess):
+        """does the private section of this key open under a GUESSED password? (False when the guess cannot even be fed to the KDF)"""
+        try:
+            k = parse_json(key_bytes)
+            if not isinstance(k['private'], (bytes, bytearray)):
+                return True         # not sealed at all
+            return self.aead_open(k['private'], self.user_key(k['kdf'], k['kdf_params'], guess)) is not None
+        except Exception:
+            return False
+
     def open_key(self, key_bytes, password) -> Key:
         k = parse_json(key_bytes)
         kdf = k['kdf']
-        assert kdf['name'] == 'scrypt'
-        from cryptography.hazmat.primitives.kdf.scrypt import Scrypt
-        userkey = Scrypt(n=kdf['n'], r=kdf['r'], p=kdf['p'], length=kdf['length'], salt=k['kdf_params']).derive(password)
+        userkey = self.user_key(kdf, k['kdf_params'], password)
         pt = self.aead_open(k['private'], userkey)
         if pt is None:
             raise ValueError('wrong password for this key')
